@@ -658,7 +658,9 @@ impl IoLoop {
                 }
             },
             Token(n) if n <= u16::max_value() as usize => {
-                self.inner.handle_channel_readable(n as u16)?
+                // (read after the batch, in turns with the other channels that have
+                // something: see drain_ready_channels)
+                self.inner.ready_channels.push(n as u16)
             }
             _ => unreachable!(),
         }
@@ -794,6 +796,7 @@ impl IoLoop {
             for event in events.iter() {
                 handle_event(self, stream, state, event)?;
             }
+            self.inner.drain_ready_channels()?;
 
             if is_done(self, state) {
                 #[cfg(amiquip_verif)]
@@ -898,6 +901,9 @@ struct Inner {
     // Set when a non-0 channel was left with messages in it because of that. Its
     // edge-triggered registration will not tell us about them again by itself.
     left_channel_undrained: bool,
+
+    // The non-0 channels that reported messages in the current batch of events.
+    ready_channels: Vec<u16>,
 }
 
 impl Inner {
@@ -914,6 +920,7 @@ impl Inner {
             channels_are_registered: true,
             buffered_writes_high_water,
             left_channel_undrained: false,
+            ready_channels: Vec::new(),
         }
     }
 
@@ -1025,20 +1032,54 @@ impl Inner {
         }
     }
 
-    fn handle_channel_readable(&mut self, channel_id: u16) -> Result<()> {
-        // A publisher can hand us messages as fast as we take them: without a bound we
-        // would never leave this loop - never get to stop listening to the channels, to
-        // write, to look at the timers - while the data waiting to be written grows and
-        // grows. (Channel 0 is not subject to back-pressure.)
-        self.drain_channel(channel_id, channel_id != 0)
+    // Takes the messages of the channels that reported some, one message from each in
+    // turn, until they are empty or the high water mark is reached.
+    //
+    // The mark: a publisher can hand us messages as fast as we take them; without a bound
+    // we would never get back to the loop - never get to stop listening to the channels,
+    // to write, to look at the timers - while the data waiting to be written grows and
+    // grows. In turns: whichever channel comes first must not fill the buffer alone and
+    // keep the others out, pass after pass.
+    fn drain_ready_channels(&mut self) -> Result<()> {
+        let mut ready = std::mem::replace(&mut self.ready_channels, Vec::new());
+        while !ready.is_empty() {
+            let mut i = 0;
+            while i < ready.len() {
+                if self.outbuf.len() > self.buffered_writes_high_water {
+                    self.left_channel_undrained = true;
+                    return Ok(());
+                }
+                let message = match self.chan_slots.get(ready[i]) {
+                    // We've been asked to poll a receiver for a channel we dropped; this
+                    // is rare, but could happen if (e.g.) the server initiated a Close in
+                    // this same batch and we already saw it. The dropped channel will
+                    // propagate an appropriate message back out to the channel handle.
+                    None => None,
+                    Some(slot) => match slot.rx.try_recv() {
+                        Ok(message) => Some(message),
+                        Err(TryRecvError::Empty) => None,
+                        Err(TryRecvError::Disconnected) => {
+                            return EventLoopClientDroppedSnafu.fail()
+                        }
+                    },
+                };
+                match message {
+                    Some(message) => {
+                        self.process_channel_message(ready[i], message)?;
+                        i += 1;
+                    }
+                    None => {
+                        ready.swap_remove(i);
+                    }
+                }
+            }
+        }
+        Ok(())
     }
 
-    fn drain_channel(&mut self, channel_id: u16, up_to_high_water: bool) -> Result<()> {
+    // Takes everything a channel has been handed (used when the connection is closed).
+    fn drain_channel(&mut self, channel_id: u16) -> Result<()> {
         loop {
-            if up_to_high_water && self.outbuf.len() > self.buffered_writes_high_water {
-                self.left_channel_undrained = true;
-                return Ok(());
-            }
             let slot = match self.chan_slots.get(channel_id) {
                 Some(slot) => slot,
                 None => {
@@ -1068,7 +1109,7 @@ impl Inner {
                 // them, or when the close simply gets here first.
                 let ids: Vec<u16> = self.chan_slots.iter().map(|(id, _)| *id).collect();
                 for id in ids {
-                    self.drain_channel(id, false)?;
+                    self.drain_channel(id)?;
                 }
                 self.outbuf.append(buf);
                 self.seal_writes();
